@@ -51,6 +51,17 @@ def same(a, b):
     return sem.values_equal(a, b, 0.0)
 
 
+_LOADER = [None]
+
+
+def shard_loader():
+    """one loader object for the whole shard, as a long-lived host application would keep it: the stored files are
+    rewritten under the same names program after program, so a loader that remembers anything by name goes stale"""
+    if _LOADER[0] is None:
+        _LOADER[0] = nslapi.LinearIR.FilesystemModuleLoader()
+    return _LOADER[0]
+
+
 def check_program(R, rng, tmp, src, calls, label):
     """calls: [(fname, args, globals)]"""
     obs = vmobs.Observer()
@@ -78,8 +89,14 @@ def check_program(R, rng, tmp, src, calls, label):
         # (a) this process
         try:
             with nslapi.quiet():
-                m1 = nslapi.LinearIR.FilesystemModuleLoader().Load(os.path.join(tmp, out_name))
+                m1 = shard_loader().Load(os.path.join(tmp, out_name))
+                # and through the loader every default-constructed Linker shares
+                lk = nslapi.LinearIR.Linker()
+                m1b = lk._Linker__loader.Load(os.path.join(tmp, out_name)) if hasattr(lk, "_Linker__loader") else m1
             l1 = nslapi.listing(m1)
+            if nslapi.listing(m1b) != l1:
+                l1 = nslapi.listing(m1b)
+            R.count("same_process_loads")
         except Exception as e:
             R.violation("reload-fails:%s" % type(e).__name__, "%s (O%d): loading the stored module raises %s: %s" % (label, int(opt), type(e).__name__, e), rep)
             continue
